@@ -1,21 +1,19 @@
 """
-E8: `Destinations.send` / `Destinations.add` / `BufferingDestination.__call__`  ->  lean/Eliot/Generated/Handover.lean
+E8: `Destinations.send` / `_send_to` / `add` and `BufferingDestination.__call__` / `drain`
+    ->  lean/Eliot/Generated/Handover.lean
 
-Statement skeletons (in source order) of the three functions involved in the hand-over from
-start-up buffering to real destinations (property C12, concurrent clause):
-  add  : initNone                       `buffered_messages = None`
-         ifFirstAdd n                   `if not self._any_added:` followed by the n statements of its body:
-           setAnyAdded                  `self._any_added = True`
-           takeBuffer                   `buffered_messages = self._destinations[0].messages`   (a reference, not a copy)
-           swapDests                    `self._destinations = []`
-         extendDests                    `self._destinations.extend(destinations)`
-         ifBufferedResend               `if buffered_messages: for message in buffered_messages: self.send(message)`
-  send : updateGlobals, localAssign*, forDestsCall (`for dest in self._destinations: try: dest(message) except Exception ...`),
-         reportErrors (`for exception in errors: ...`)
-  buffer call: append, trim             `self.messages.append(message)`; `while len(self.messages) > 1000: self.messages.pop(0)`
-  locked : does any of the three functions use a lock (`with <something>lock<something>:`) - the pinned tree has none
-Anything else -> `.unknown`.  Also returns the line numbers the harness needs to map executed
-source lines to model steps.
+Statement skeletons (in source order) of the functions involved in the hand-over from start-up
+buffering to real destinations (property C12, concurrent clause).  Two shapes are recognised
+statement by statement - the pinned one (`Handover.pinnedSkel`) and the repaired one
+(`Handover.fixedSkel`); anything else becomes `.unknown`:
+
+  add    : initNone | ifFirstAdd n | ifFirstAddElse a b | setAnyAdded | takeBuffer | takeBufferDest | swapDests |
+           mkNewList | drainForward | assignDests | extendDests | ifBufferedResend
+  send / _send_to : updateGlobals | localAssign | forDestsCall | reportErrors | delegateSendTo
+  __call__ / drain: append | trim | lockedAppendElseFall | forwardCall | lockedSetForwardTakeResend
+  lock   : what BufferingDestination.__init__ assigns to self._lock (none / Lock() / RLock() / other)
+Also returns the line numbers the harness needs to map executed source lines to model steps
+(`skeleton(repo)["lines"]`) and `shape` in {"pinned", "fixed", "unknown"}.
 """
 import ast
 from pathlib import Path
@@ -35,123 +33,249 @@ def _is_name(n, ident=None):
     return isinstance(n, ast.Name) and (ident is None or n.id == ident)
 
 
+def _mentions_self(n):
+    return any(isinstance(x, ast.Attribute) and isinstance(x.value, ast.Name) and x.value.id == "self" for x in ast.walk(n))
+
+
+def _call_of(s, pred, nargs=None, kw=False):
+    v = s.value if isinstance(s, ast.Expr) else s
+    return isinstance(v, ast.Call) and pred(v.func) and (nargs is None or len(v.args) == nargs) and (kw or not v.keywords)
+
+
+PINNED = dict(add=["initNone", "ifFirstAdd 3", "setAnyAdded", "takeBuffer", "swapDests", "extendDests", "ifBufferedResend"],
+              send=["updateGlobals", "localAssign", "localAssign", "forDestsCall", "reportErrors"], sendTo=[],
+              buffer=["append", "trim"], drain=[], lock="none")
+FIXED = dict(add=["ifFirstAddElse 5 1", "setAnyAdded", "takeBufferDest", "mkNewList", "drainForward", "assignDests", "extendDests"],
+             send=["delegateSendTo"], sendTo=["updateGlobals", "localAssign", "localAssign", "forDestsCall", "reportErrors"],
+             buffer=["lockedAppendElseFall", "forwardCall"], drain=["lockedSetForwardTakeResend"], lock="rlock")
+
+
+def _add_stmt(s, ctx, lines):
+    """Classify one statement of `add` (inside or outside the `if not self._any_added` block)."""
+    star = ctx["star"]
+    if isinstance(s, ast.Assign) and len(s.targets) == 1:
+        t, v = s.targets[0], s.value
+        if _is_name(t) and isinstance(v, ast.Constant) and v.value is None:
+            ctx["bufvar"] = t.id
+            return "initNone"
+        if _self_attr(t, "_any_added") and isinstance(v, ast.Constant) and v.value is True:
+            lines["set_any_added"] = s.lineno
+            return "setAnyAdded"
+        if (_is_name(t) and isinstance(v, ast.Attribute) and v.attr == "messages" and isinstance(v.value, ast.Subscript)
+                and _self_attr(v.value.value, "_destinations") and isinstance(v.value.slice, ast.Constant) and v.value.slice.value == 0
+                and t.id == ctx.get("bufvar")):
+            return "takeBuffer"
+        if (_is_name(t) and isinstance(v, ast.Subscript) and _self_attr(v.value, "_destinations")
+                and isinstance(v.slice, ast.Constant) and v.slice.value == 0):
+            ctx["bufdest"] = t.id
+            lines["take_buffer_dest"] = s.lineno
+            return "takeBufferDest"
+        if _self_attr(t, "_destinations") and isinstance(v, ast.List) and not v.elts:
+            lines["swap"] = s.lineno
+            return "swapDests"
+        if _is_name(t) and _call_of(v, lambda f: _is_name(f, "list"), 1) and _is_name(v.args[0], star):
+            ctx["newvar"] = t.id
+            lines["mk_new"] = s.lineno
+            return "mkNewList"
+        if _self_attr(t, "_destinations") and _is_name(v, ctx.get("newvar")) and ctx.get("newvar"):
+            lines["assign_dests"] = s.lineno
+            return "assignDests"
+        return "unknown"
+    if isinstance(s, ast.Expr) and isinstance(s.value, ast.Call):
+        c = s.value
+        f = c.func
+        if (isinstance(f, ast.Attribute) and f.attr == "extend" and _self_attr(f.value, "_destinations") and len(c.args) == 1
+                and _is_name(c.args[0], star) and not c.keywords):
+            lines["extend"] = s.lineno
+            return "extendDests"
+        if (isinstance(f, ast.Attribute) and f.attr == "drain" and _is_name(f.value, ctx.get("bufdest")) and ctx.get("bufdest")
+                and len(c.args) == 1 and not c.keywords and isinstance(c.args[0], ast.Lambda)):
+            lam = c.args[0]
+            la = lam.args
+            if (len(la.args) == 1 and not la.vararg and not la.kwarg and not la.defaults
+                    and _call_of(lam.body, lambda g: _self_attr(g, "_send_to"), 2)
+                    and _is_name(lam.body.args[0], ctx.get("newvar")) and _is_name(lam.body.args[1], la.args[0].arg)):
+                lines["drain_call"] = [s.lineno, getattr(s, "end_lineno", s.lineno)]
+                return "drainForward"
+        return "unknown"
+    if (isinstance(s, ast.If) and _is_name(s.test, ctx.get("bufvar")) and ctx.get("bufvar") and not s.orelse and len(s.body) == 1
+            and isinstance(s.body[0], ast.For) and _is_name(s.body[0].iter, ctx["bufvar"]) and _is_name(s.body[0].target)
+            and len(s.body[0].body) == 1 and not s.body[0].orelse and _call_of(s.body[0].body[0], lambda g: _self_attr(g, "send"), 1)
+            and isinstance(s.body[0].body[0], ast.Expr) and _is_name(s.body[0].body[0].value.args[0], s.body[0].target.id)):
+        lines["resend_for"] = s.body[0].lineno
+        lines["resend_send"] = s.body[0].body[0].lineno
+        return "ifBufferedResend"
+    return "unknown"
+
+
 def _add_ops(fn, lines):
     ops = []
-    body = _strip_doc(fn.body)
-    star = fn.args.vararg.arg if fn.args.vararg else None
-    bufvar = None
-    for s in body:
-        if isinstance(s, ast.Assign) and len(s.targets) == 1 and _is_name(s.targets[0]) and isinstance(s.value, ast.Constant) and s.value.value is None:
-            bufvar = s.targets[0].id
-            ops.append("initNone")
-            lines.setdefault("add", []).append(s.lineno)
-        elif (isinstance(s, ast.If) and isinstance(s.test, ast.UnaryOp) and isinstance(s.test.op, ast.Not) and _self_attr(s.test.operand, "_any_added")
-              and not s.orelse):
-            inner = []
-            for b in s.body:
-                if (isinstance(b, ast.Assign) and len(b.targets) == 1 and _self_attr(b.targets[0], "_any_added")
-                        and isinstance(b.value, ast.Constant) and b.value.value is True):
-                    inner.append("setAnyAdded")
-                elif (isinstance(b, ast.Assign) and len(b.targets) == 1 and _is_name(b.targets[0], bufvar) and isinstance(b.value, ast.Attribute)
-                      and b.value.attr == "messages" and isinstance(b.value.value, ast.Subscript) and _self_attr(b.value.value.value, "_destinations")
-                      and isinstance(b.value.value.slice, ast.Constant) and b.value.value.slice.value == 0):
-                    inner.append("takeBuffer")
-                elif (isinstance(b, ast.Assign) and len(b.targets) == 1 and _self_attr(b.targets[0], "_destinations")
-                      and isinstance(b.value, ast.List) and not b.value.elts):
-                    inner.append("swapDests")
-                    lines["swap"] = b.lineno
-                else:
-                    inner.append("unknown")
-                lines.setdefault("add", []).append(b.lineno)
-            ops.append("ifFirstAdd %d" % len(inner))
-            lines.setdefault("add", []).insert(len(lines["add"]) - len(inner), s.lineno)
-            ops.extend(inner)
-        elif (isinstance(s, ast.Expr) and isinstance(s.value, ast.Call) and isinstance(s.value.func, ast.Attribute) and s.value.func.attr == "extend"
-              and _self_attr(s.value.func.value, "_destinations") and len(s.value.args) == 1 and _is_name(s.value.args[0], star)):
-            ops.append("extendDests")
-            lines.setdefault("add", []).append(s.lineno)
-            lines["extend"] = s.lineno
-        elif (isinstance(s, ast.If) and _is_name(s.test, bufvar) and not s.orelse and len(s.body) == 1 and isinstance(s.body[0], ast.For)
-              and _is_name(s.body[0].iter, bufvar) and _is_name(s.body[0].target) and len(s.body[0].body) == 1 and not s.body[0].orelse
-              and isinstance(s.body[0].body[0], ast.Expr) and isinstance(s.body[0].body[0].value, ast.Call)
-              and _self_attr(s.body[0].body[0].value.func, "send") and len(s.body[0].body[0].value.args) == 1
-              and _is_name(s.body[0].body[0].value.args[0], s.body[0].target.id)):
-            ops.append("ifBufferedResend")
-            lines.setdefault("add", []).append(s.lineno)
-            lines["resend_for"] = s.body[0].lineno
-            lines["resend_send"] = s.body[0].body[0].lineno
+    ctx = dict(star=fn.args.vararg.arg if fn.args.vararg else None)
+    lines["add"] = []
+    for s in _strip_doc(fn.body):
+        if isinstance(s, ast.If) and isinstance(s.test, ast.UnaryOp) and isinstance(s.test.op, ast.Not) and _self_attr(s.test.operand, "_any_added"):
+            lines["add_test"] = s.lineno
+            inner = [_add_stmt(b, ctx, lines) for b in s.body]
+            other = [_add_stmt(b, ctx, lines) for b in s.orelse]
+            ops.append(("ifFirstAddElse %d %d" % (len(inner), len(other))) if other else ("ifFirstAdd %d" % len(inner)))
+            lines["add"].append(s.lineno)
+            lines["add"].extend(b.lineno for b in s.body)
+            lines["add"].extend(b.lineno for b in s.orelse)
+            ops.extend(inner + other)
         else:
-            ops.append("unknown")
-            lines.setdefault("add", []).append(s.lineno)
+            ops.append(_add_stmt(s, ctx, lines))
+            lines["add"].append(s.lineno)
     return ops
 
 
-def _send_ops(fn, lines):
+def _loop_ops(fn, lines, prefix, listpred):
+    """The `update globals; locals; for dest in <list>: try: dest(message) ...; report errors` body."""
     ops = []
     body = _strip_doc(fn.body)
-    msg = fn.args.args[1].arg if len(fn.args.args) > 1 else None
-    lines["send_first"] = body[0].lineno if body else fn.lineno
+    names = [a.arg for a in fn.args.args]
+    msg = names[2] if prefix == "sendto" and len(names) > 2 else (names[1] if len(names) > 1 else None)
+    lines[prefix + "_first"] = body[0].lineno if body else fn.lineno
     for s in body:
         if (isinstance(s, ast.Expr) and isinstance(s.value, ast.Call) and isinstance(s.value.func, ast.Attribute) and s.value.func.attr == "update"
                 and _is_name(s.value.func.value, msg) and len(s.value.args) == 1 and _self_attr(s.value.args[0], "_globalFields")):
             ops.append("updateGlobals")
-        elif isinstance(s, ast.Assign) and all(_is_name(t) for t in s.targets) and not any(
-                isinstance(n, ast.Attribute) and isinstance(n.value, ast.Name) and n.value.id == "self" for n in ast.walk(s.value)):
+        elif isinstance(s, ast.Assign) and all(_is_name(t) for t in s.targets) and not _mentions_self(s.value):
             ops.append("localAssign")
-        elif (isinstance(s, ast.For) and _self_attr(s.iter, "_destinations") and _is_name(s.target) and not s.orelse and len(s.body) == 1
+        elif (isinstance(s, ast.For) and listpred(s.iter) and _is_name(s.target) and not s.orelse and len(s.body) == 1
               and isinstance(s.body[0], ast.Try) and len(s.body[0].body) == 1 and isinstance(s.body[0].body[0], ast.Expr)
               and isinstance(s.body[0].body[0].value, ast.Call) and _is_name(s.body[0].body[0].value.func, s.target.id)
               and len(s.body[0].body[0].value.args) == 1 and _is_name(s.body[0].body[0].value.args[0], msg)
               and len(s.body[0].handlers) == 1 and _is_name(s.body[0].handlers[0].type, "Exception")
-              and not any(isinstance(n, ast.Attribute) and isinstance(n.value, ast.Name) and n.value.id == "self" for h in s.body[0].handlers for n in ast.walk(h))):
+              and not any(_mentions_self(h) for h in s.body[0].handlers)):
             ops.append("forDestsCall")
-            lines["send_for"] = s.lineno
-            lines["send_call"] = s.body[0].body[0].lineno
+            lines[prefix + "_for"] = s.lineno
+            lines[prefix + "_call"] = s.body[0].body[0].lineno
         elif isinstance(s, ast.For) and _is_name(s.iter) and not any(_self_attr(n, "_destinations") or _self_attr(n, "_any_added") for n in ast.walk(s)):
             ops.append("reportErrors")
+        elif (prefix == "send" and isinstance(s, ast.Expr) and _call_of(s, lambda g: _self_attr(g, "_send_to"), 3)
+              and _self_attr(s.value.args[0], "_destinations") and _is_name(s.value.args[1], msg)):
+            ops.append("delegateSendTo")
+            lines["send_capture"] = s.lineno
         else:
             ops.append("unknown")
     return ops
 
 
-def _buffer_ops(fn):
+def _is_lock_with(s):
+    return (isinstance(s, ast.With) and len(s.items) == 1 and _self_attr(s.items[0].context_expr, "_lock") and s.items[0].optional_vars is None)
+
+
+def _buffer_ops(fn, lines):
     ops = []
     msg = fn.args.args[1].arg if len(fn.args.args) > 1 else None
+
+    def is_append(s):
+        return (isinstance(s, ast.Expr) and _call_of(s, lambda g: isinstance(g, ast.Attribute) and g.attr == "append" and _self_attr(g.value, "messages"), 1)
+                and _is_name(s.value.args[0], msg))
+
+    def is_trim(s):
+        return isinstance(s, ast.While) and any(isinstance(n, ast.Attribute) and n.attr == "pop" and _self_attr(n.value, "messages") for n in ast.walk(s))
+
     for s in _strip_doc(fn.body):
-        if (isinstance(s, ast.Expr) and isinstance(s.value, ast.Call) and isinstance(s.value.func, ast.Attribute) and s.value.func.attr == "append"
-                and _self_attr(s.value.func.value, "messages") and len(s.value.args) == 1 and _is_name(s.value.args[0], msg)):
+        if is_append(s):
             ops.append("append")
-        elif isinstance(s, ast.While) and any(isinstance(n, ast.Attribute) and n.attr == "pop" and _self_attr(n.value, "messages") for n in ast.walk(s)):
+            lines["buffer_append"] = s.lineno
+        elif is_trim(s):
             ops.append("trim")
+        elif (_is_lock_with(s) and len(s.body) == 1 and isinstance(s.body[0], ast.If) and not s.body[0].orelse
+              and isinstance(s.body[0].test, ast.Compare) and _self_attr(s.body[0].test.left, "_forward") and len(s.body[0].test.ops) == 1
+              and isinstance(s.body[0].test.ops[0], ast.Is) and isinstance(s.body[0].test.comparators[0], ast.Constant)
+              and s.body[0].test.comparators[0].value is None and len(s.body[0].body) == 3 and is_append(s.body[0].body[0])
+              and is_trim(s.body[0].body[1]) and isinstance(s.body[0].body[2], ast.Return) and s.body[0].body[2].value is None):
+            ops.append("lockedAppendElseFall")
+            lines["buffer_with"] = s.lineno
+            lines["buffer_append"] = s.body[0].body[0].lineno
+        elif isinstance(s, ast.Expr) and _call_of(s, lambda g: _self_attr(g, "_forward"), 1) and _is_name(s.value.args[0], msg):
+            ops.append("forwardCall")
+            lines["buffer_forward"] = s.lineno
         else:
             ops.append("unknown")
     return ops
+
+
+def _drain_ops(fn, lines):
+    ops = []
+    fw = fn.args.args[1].arg if len(fn.args.args) > 1 else None
+    for s in _strip_doc(fn.body):
+        ok = False
+        if _is_lock_with(s) and len(s.body) == 3:
+            a, b, c = s.body
+            ok = (isinstance(a, ast.Assign) and len(a.targets) == 1 and _self_attr(a.targets[0], "_forward") and _is_name(a.value, fw)
+                  and isinstance(b, ast.Assign) and len(b.targets) == 1 and isinstance(b.targets[0], ast.Tuple) and len(b.targets[0].elts) == 2
+                  and _is_name(b.targets[0].elts[0]) and _self_attr(b.targets[0].elts[1], "messages") and isinstance(b.value, ast.Tuple)
+                  and len(b.value.elts) == 2 and _self_attr(b.value.elts[0], "messages") and isinstance(b.value.elts[1], ast.List) and not b.value.elts[1].elts
+                  and isinstance(c, ast.For) and _is_name(c.iter, b.targets[0].elts[0].id) and _is_name(c.target) and not c.orelse and len(c.body) == 1
+                  and isinstance(c.body[0], ast.Expr) and _call_of(c.body[0], lambda g: _is_name(g, fw), 1) and _is_name(c.body[0].value.args[0], c.target.id))
+            if ok:
+                lines["drain_with"] = s.lineno
+                lines["drain_for"] = c.lineno
+                lines["drain_forward"] = c.body[0].lineno
+        ops.append("lockedSetForwardTakeResend" if ok else "unknown")
+    return ops
+
+
+def _lock_kind(mod, bcls):
+    init = next((n for n in bcls.body if isinstance(n, ast.FunctionDef) and n.name == "__init__"), None)
+    if init is None:
+        return "none"
+    assigns = [n for n in ast.walk(init) if isinstance(n, ast.Assign) and any(_self_attr(t, "_lock") for t in n.targets)]
+    if not assigns:
+        return "none"
+    imported = set()
+    for n in mod.body:
+        if isinstance(n, ast.ImportFrom) and n.module == "threading":
+            imported |= {a.name for a in n.names if a.asname is None}
+    if len(assigns) == 1 and _call_of(assigns[0].value, lambda f: _is_name(f), 0):
+        name = assigns[0].value.func.id
+        if name == "Lock" and "Lock" in imported:
+            return "lock"
+        if name == "RLock" and "RLock" in imported:
+            return "rlock"
+    return "other"
 
 
 def skeleton(repo):
     path = Path(repo) / "eliot" / "_output.py"
     mod = ast.parse(path.read_text())
-    res = dict(path=str(path), add=["unknown"], send=["unknown"], buffer=["unknown"], locked=False, lines={}, problems=[])
+    res = dict(path=str(path), add=["unknown"], send=["unknown"], sendTo=[], buffer=["unknown"], drain=[], lock="none",
+               lines={}, problems=[], shape="unknown")
     dcls = next((n for n in mod.body if isinstance(n, ast.ClassDef) and n.name == "Destinations"), None)
     bcls = next((n for n in mod.body if isinstance(n, ast.ClassDef) and n.name == "BufferingDestination"), None)
     if dcls is None or bcls is None:
         res["problems"].append("Destinations / BufferingDestination not found")
         return res
     fns = {n.name: n for n in dcls.body if isinstance(n, ast.FunctionDef)}
-    bfn = next((n for n in bcls.body if isinstance(n, ast.FunctionDef) and n.name == "__call__"), None)
+    bfns = {n.name: n for n in bcls.body if isinstance(n, ast.FunctionDef)}
+    L = res["lines"]
     if "add" in fns:
-        res["add"] = _add_ops(fns["add"], res["lines"])
+        res["add"] = _add_ops(fns["add"], L)
     if "send" in fns:
-        res["send"] = _send_ops(fns["send"], res["lines"])
-    if bfn is not None:
-        res["buffer"] = _buffer_ops(bfn)
-        res["lines"]["buffer_append"] = _strip_doc(bfn.body)[0].lineno if _strip_doc(bfn.body) else bfn.lineno
-    for fn in [fns.get("add"), fns.get("send"), bfn]:
-        if fn is not None and (fn.decorator_list or any(isinstance(n, ast.With) for n in ast.walk(fn))):
-            res["locked"] = True
-    for k in ("add", "send", "buffer"):
+        res["send"] = _loop_ops(fns["send"], L, "send", lambda it: _self_attr(it, "_destinations"))
+    if "_send_to" in fns:
+        first = fns["_send_to"].args.args[1].arg if len(fns["_send_to"].args.args) > 1 else None
+        res["sendTo"] = _loop_ops(fns["_send_to"], L, "sendto", lambda it: _is_name(it, first))
+    if "__call__" in bfns:
+        res["buffer"] = _buffer_ops(bfns["__call__"], L)
+    if "drain" in bfns:
+        res["drain"] = _drain_ops(bfns["drain"], L)
+    res["lock"] = _lock_kind(mod, bcls)
+    # other methods of the two classes must not touch the shared hand-over state
+    for cls, allowed in ((dcls, {"__init__", "add", "send", "_send_to", "remove", "addGlobalFields"}), (bcls, {"__init__", "__call__", "drain"})):
+        for f in cls.body:
+            if isinstance(f, ast.FunctionDef) and f.name not in allowed:
+                if any(_self_attr(n, a) for n in ast.walk(f) for a in ("_destinations", "_any_added", "messages", "_forward", "_lock")):
+                    res["problems"].append("unexpected method %s.%s touches the hand-over state" % (cls.name, f.name))
+                    res["add"] = res["add"] + ["unknown"]
+    for k in ("add", "send", "sendTo", "buffer", "drain"):
         if "unknown" in res[k]:
             res["problems"].append("unrecognised statement in %s" % k)
+    cur = {k: res[k] for k in ("add", "send", "sendTo", "buffer", "drain", "lock")}
+    res["shape"] = "pinned" if cur == PINNED else ("fixed" if cur == FIXED else "unknown")
     return res
 
 
@@ -165,7 +289,10 @@ def extract(repo):
         "def handover : HandoverSkel :=",
         "  { add := %s," % l(sk["add"], "AOp"),
         "    send := %s," % l(sk["send"], "SOp"),
+        "    sendTo := %s," % l(sk["sendTo"], "SOp"),
         "    buffer := %s," % l(sk["buffer"], "BOp"),
-        "    locked := %s }" % ("true" if sk["locked"] else "false"),
+        "    drain := %s," % l(sk["drain"], "BOp"),
+        "    lock := LockKind.%s }" % sk["lock"],
         "", "end Eliot.Generated", ""])
-    return "Handover.lean", src, dict(add=sk["add"], send=sk["send"], buffer=sk["buffer"], locked=sk["locked"], problems=sk["problems"])
+    return "Handover.lean", src, dict(shape=sk["shape"], add=sk["add"], send=sk["send"], sendTo=sk["sendTo"], buffer=sk["buffer"],
+                                      drain=sk["drain"], lock=sk["lock"], problems=sk["problems"])
